@@ -203,7 +203,8 @@ def scen_loops(nloops, gaps, bt, keep_loops, form):
             await aio.gather(*ts)
             return loop
         nb0 = len(st.batches)
-        outcome, loop = vloop.run(main)
+        # keep_loops: explicitly managed loops - run_until_complete returns, the loop stays open (not closed) while the next one is used
+        outcome, loop = vloop.run(main, shutdown=not keep_loops, close=not keep_loops)
         if keep_loops:
             kept.append(loop)
         if outcome[0] != 'ok':
@@ -223,6 +224,12 @@ def scen_loops(nloops, gaps, bt, keep_loops, form):
         if any(len(r['keys']) > 2 for r in mine):
             devs.append('max_batch_size-ignored')
         del loop
+    for loop in kept:
+        vloop.close_leftovers(loop)
+        try:
+            loop.close()
+        except Exception:  # noqa
+            pass
     if not tracing():
         LAST_INFO = {'nloops': nloops, 'gaps': list(gaps), 'bt': bt, 'batches': [(r['keys'], r['start']) for r in st.batches]}
     return sorted(set(devs))
